@@ -43,7 +43,7 @@ def rnumber_text(rng):
     if rng.random() < 0.7:
         s += '.' + fp
     if rng.random() < 0.5:
-        s += rng.choice(['e', 'E']) + rng.choice(['', '+', '-']) + str(rng.randint(0, 20))
+        s += rng.choice(['e', 'E']) + rng.choice(['', '+', '-']) + rng.choice(['', '', '0', '00']) + str(rng.randint(0, 20))     # JSON allows leading zeros in the exponent
     return s
 
 
